@@ -183,6 +183,7 @@ package types
 //@   props C20
 //@   requires s != nil
 //@   modifies nothing
+//@   opt splitappend
 //@   loop 1 invariant forall k int :: 0 <= k && k < len(list) ==> maphas(s.cache, list[k])
 //@   loop 1 invariant cap(list) == 0 || fresh(backing(list))
 //@   ensures [C20.set.keys] forall k int :: 0 <= k && k < len(result) ==> maphas(s.cache, result[k])
